@@ -482,3 +482,24 @@ func JSON(v interface{}) []byte {
 	b, _ := json.Marshal(v)
 	return b
 }
+
+// FuzzFail is called by native fuzz targets on a failing input: it writes the
+// replay (sub-check, signature, case) into VERIF_FUZZ_OUT for the driver, unless
+// the signature belongs to a listed open finding, and reports whether the caller
+// should fail the fuzz run.
+func FuzzFail(sub string, c interface{}, f *Failure) bool {
+	if f == nil {
+		return false
+	}
+	if _, ok := openSigs[f.Sig]; ok {
+		return false
+	}
+	dir := os.Getenv("VERIF_FUZZ_OUT")
+	if dir == "" {
+		return true
+	}
+	cb, _ := json.Marshal(c)
+	b, _ := json.Marshal(violation{Sub: sub, Sig: f.Sig, Msg: f.Msg, Case: cb})
+	_ = os.WriteFile(fmt.Sprintf("%s/%016x.json", dir, hash64(cb)), b, 0o644)
+	return true
+}
